@@ -66,7 +66,7 @@ def main():
         ctx.broken("check machinery of %s raised" % pid, traceback.format_exc())
     # a broken obligation/tie accompanied by a concrete violation is reported through the violation only
     if any(f.kind == "violation" for f in ctx.findings):
-        ctx.findings = [f for f in ctx.findings if f.kind == "violation"] + [f for f in ctx.findings if f.kind != "violation"]
+        ctx.findings = [f for f in ctx.findings if f.kind == "violation"]
     return vlib.finish(ctx, mod.TRUSTED, getattr(mod, "extra_cov", lambda c: None)(ctx))
 
 
